@@ -14,6 +14,8 @@ CLAIMED = {
              note='The threaded pipeline is cut at queue_wrapper<std::string>::pop and add_to_queue<Buffer> (boundary models written in C++ in the wrapper TU); counterexamples are replayed natively through the real Queue/future/promise objects. XML (expat) and real decompressors as chunk sources are outside.', ref='§2 C06'),
  'C02': dict(text='Bounded symbolic model checking of decoder kernels against specification formulas: the PBF length prefix for all 2^32 inputs, BlobHeader decoding with fields in any order / indexdata / unknown fields and a symbolic datasize, PBFPrimitiveBlockDecoder on blocks with dense nodes and plain nodes whose deltas, offsets and metadata are symbolic (non-default granularity, offsets, date granularity, missing Info), and the o5m string reference table ring law including wrap-around.',
              note='Kernel level only: XML (expat), zlib/lz4 inflation, whole-file agreement of the four readers and blocks with more than two entities are outside; protozero is interpreted from its headers.', ref='§2 C02'),
+ 'C04': dict(text='Bounded symbolic model checking with a memory-safety oracle (every load/store checked against live objects): builder programs for nodes, ways, relations (with full members), changesets with discussions, rollback, purge_removed (all removal subsets, with callback offsets) and add_buffer/push_back/add_item/swap/move/clear run in buffers whose initial capacity and string lengths are symbolic, so growth is forced at every builder call, for auto_grow no/yes/internal; the result is read back through the library iterators and must equal what was passed in.',
+             note='Capacities up to 160 (quick) / 256 (thorough); string contents concrete, ids symbolic; std::bad_alloc outside; purge_removed on buffers with non-entity top-level items outside.', ref='§2 C04'),
 }
 NA = {
  'C19': 'The property is its schedule quantifier (lost wake-ups, FIFO under contention, exactly-once execution); bounded symbolic interleaving with cbmc did not finish a 2-thread toy monitor in 200 s here, and enumerating schedules would be a different technique family.',
